@@ -116,16 +116,17 @@ func (w *scriptWriter) Write(p []byte) (int, error) {
 
 // DOp is one concrete decoder operation.
 type DOp struct {
-	Op   string   `json:"op"`
-	C    byte     `json:"c,omitempty"`
-	Data Bytes    `json:"data,omitempty"`
-	M    uint32   `json:"m,omitempty"`
-	O    uint32   `json:"o,omitempty"`
-	Seqs []lz.Seq `json:"seqs,omitempty"`
-	Lits Bytes    `json:"lits,omitempty"`
-	Len  int      `json:"len,omitempty"`
-	W    *WEvent  `json:"w,omitempty"`   // writeto on a DecoderBuffer: behaviour of the writer
-	Cfg  *DCfg    `json:"cfg,omitempty"` // reinit: Init is called again with this configuration (nil: the one of the case)
+	Op    string   `json:"op"`
+	C     byte     `json:"c,omitempty"`
+	Data  Bytes    `json:"data,omitempty"`
+	M     uint32   `json:"m,omitempty"`
+	O     uint32   `json:"o,omitempty"`
+	Seqs  []lz.Seq `json:"seqs,omitempty"`
+	Lits  Bytes    `json:"lits,omitempty"`
+	Len   int      `json:"len,omitempty"`
+	W     *WEvent  `json:"w,omitempty"`     // writeto on a DecoderBuffer: behaviour of the writer
+	Empty bool     `json:"empty,omitempty"` // write/wblock: empty slices are handed over as empty non-nil slices instead of nil
+	Cfg   *DCfg    `json:"cfg,omitempty"`   // reinit: Init is called again with this configuration (nil: the one of the case)
 }
 
 // DecCase is a decoder history: vehicle "dbuf" (lz.DecoderBuffer used
@@ -491,6 +492,12 @@ func (x *decExec) doWriteByte(op DOp) {
 func (x *decExec) doWrite(op DOp) {
 	st := x.before()
 	p := cloneBytes(op.Data)
+	if len(op.Data) == 0 {
+		p = nil
+		if op.Empty {
+			p = []byte{}
+		}
+	}
 	var n int
 	var err error
 	if x.buf != nil {
@@ -608,6 +615,15 @@ func (x *decExec) doWriteBlock(op DOp) {
 	st := x.before()
 	seqs := cloneSeqs(op.Seqs)
 	lits := cloneBytes(op.Lits)
+	if len(op.Seqs) == 0 && !op.Empty {
+		seqs = nil
+	}
+	if len(op.Lits) == 0 {
+		lits = nil
+		if op.Empty {
+			lits = []byte{}
+		}
+	}
 	blk := lz.Block{Sequences: seqs, Literals: lits}
 	var n, k, l int
 	var err error
